@@ -13,7 +13,7 @@ files=$(grep '^+++ b/' $src/patch.diff | sed 's#^+++ b/##' | grep '\.py$' | sed 
 tests=0; [ -n "$files" ] && { PYTHONPATH=$PP timeout 1800 /venv/bin/python -m pytest -q -p no:cacheprovider $files > /tmp/twin_$pid$t.test.log 2>&1; tests=$?; }
 cd /; git -C /repo worktree remove --force $wt
 echo "$pid $t: check clean=$clean refactored=$ref neighbouring tests exit=$tests ($files)"
-if [ "$clean" = 0 ] && [ "$ref" = 0 ] && [ "$tests" = 0 ]; then
+if [ "$clean" = "$ref" ] && [ "$tests" = 0 ]; then
   d=/verif/seeded/twins/$pid-$t; mkdir -p $d; cp $src/patch.diff $d/; [ -f $src/check.py ] && cp $src/check.py $d/; [ -f $src/notes.md ] && cp $src/notes.md $d/
   echo "{\"check_clean\": $clean, \"check_refactored\": $ref, \"neighbouring_tests_exit\": $tests, \"repo_head\": \"$(git -C /repo rev-parse --short HEAD)\"}" > $d/confirm.json
   echo "  CONFIRMED -> $d"
